@@ -94,6 +94,17 @@ func unionProgram() *idlgen.Program {
 	return &idlgen.Program{Files: []*idlgen.File{f}}
 }
 
+// typedefReqProgram: `typedef list<i32> L  struct TD {1: required L l, 2: i32 n}`
+func typedefReqProgram() *idlgen.Program {
+	f := &idlgen.File{Path: "dtypedef.thrift", GoNS: "dtypedef"}
+	f.Typedefs = []*idlgen.Typedef{{Name: "L", Type: &idlgen.Type{Kind: idlgen.List, Elem: &idlgen.Type{Kind: idlgen.I32}}}}
+	f.Structs = []*idlgen.Struct{{Kind: 's', Name: "TD", Fields: []*idlgen.Field{
+		{ID: 1, HasID: true, Name: "l", Req: idlgen.Required, Type: &idlgen.Type{Kind: idlgen.Named, Named: &idlgen.NamedRef{File: 0, Name: "L"}}},
+		{ID: 2, HasID: true, Name: "n", Req: idlgen.Default, Type: &idlgen.Type{Kind: idlgen.I32}},
+	}}}
+	return &idlgen.Program{Files: []*idlgen.File{f}}
+}
+
 // wideProgram: the aimed unit for the slot table of the field-mask library (fieldmask/storage.go: ids 0.._MaxFieldIDHead live in an
 // array, all others in a map): one field per boundary id, alternately a struct, a string and a list of structs, so that every id is
 // selected / rejected directly and one level below.
@@ -462,6 +473,9 @@ func directedCases(s *idlgen.Schema, sidx int) []directedCase {
 				directedCase{v, black, root(fieldKid(1, "l", true, after(idxNode(leafNode(), 0))))},
 				directedCase{v, black, root(fieldKid(5, "li", true, star('i', after(&mnode{kids: []*mkid{fieldKid(3, "z", true, leafNode())}}))))},
 				directedCase{v, black, root(fieldKid(4, "ms", true, keys('s', after(&mnode{kids: []*mkid{fieldKid(1, "x", true, leafNode())}}), nil, []string{"k"})))},
+				// … and a prefix written after a deeper path through `*` right below it: `$.li[*].z` then `$.li`, `$.ms{*}.x` then `$.ms`
+				directedCase{v, black, root(fieldKid(5, "li", true, after(star('i', &mnode{kids: []*mkid{fieldKid(3, "z", true, leafNode())}}))))},
+				directedCase{v, black, root(fieldKid(4, "ms", true, after(star('m', &mnode{kids: []*mkid{fieldKid(1, "x", true, leafNode())}}))))},
 				directedCase{v, black, root(fieldKid(8, "oi", true, after(&mnode{kids: []*mkid{fieldKid(2, "y", true, leafNode())}})))},
 				directedCase{v, black, root(fieldKid(3, "mi", true, after(keys('k', leafNode(), []int64{0}, nil))), fieldKid(13, "n", true, leafNode()))},
 			)
